@@ -318,6 +318,14 @@ var shEcos = map[string]*shEco{
 			x, _, _ := pick3(r)
 			return shCase{"!=X.*", "!=" + dots("", x) + ".*", dots("", x), dots("", x+1), true, false, true}
 		},
+		// a base with a suffix segment (post, dev, pre-release): PEP 440 takes the prefix from the
+		// release segments only ("~=2.2.post3" is ">=2.2.post3, ==2.*")
+		func(r *RNG) shCase {
+			c := pickN(r, r.Range(2, 4))
+			suf := r.Pick([]string{".post3", ".post0", ".dev1", "rc1", ".rc2", "a1", "b2", ".post1.dev2"})
+			lo := dots("", c...) + suf
+			return shCase{"~=X.Y...<suffix>", "~=" + lo, lo, dots("", append(bumpDrop(c), 0)...), true, false, false}
+		},
 		// long release tuples: the same rules at five and six segments
 		func(r *RNG) shCase {
 			c := pickN(r, r.Range(5, 6))
